@@ -159,7 +159,46 @@ def replay_c08(info, ce):
                 detail='after the history %s the series %s the %s increments' % (history, 'do NOT have' if bad else 'have', 'rectangle' if how == 'generate-rect' else 'trapezoid'))
 
 
+def replay_smoothing_settings(info, ce):
+    """the smoothing settings mean what they say, from objects whose frequencies were set in every public way before"""
+    import eqsig
+    cls = getattr(eqsig, info.get('cls', 'Signal'))
+    op = info.get('op', 'points')
+    x = _record(64, 3)
+    befores = [('default', lambda o: None), ('smooth_freq_range=(0.5, 20)', lambda o: setattr(o, 'smooth_freq_range', (0.5, 20.0))),
+               ('smooth_fa_freqs=logspace(0,1,7)', lambda o: setattr(o, 'smooth_fa_freqs', np.logspace(0, 1, 7))),
+               ('set_smooth_fa_frequecies_by_range((0.2, 9), 11)', lambda o: o.set_smooth_fa_frequecies_by_range((0.2, 9.0), 11))]
+    import warnings
+    for name, before in befores:
+        with warnings.catch_warnings():
+            warnings.simplefilter('ignore')
+            o = cls(x.copy(), 0.01)
+            before(o)
+            f0 = np.array(o.smooth_fa_freqs, copy=True)
+            if op == 'points':
+                o.smooth_freq_points = 13
+                want = np.logspace(np.log10(f0[0]), np.log10(f0[-1]), 13)
+            elif op == 'range':
+                o.smooth_freq_range = (0.3, 12.0)
+                want = np.logspace(np.log10(0.3), np.log10(12.0), len(f0))
+            elif op == 'by_range':
+                o.set_smooth_fa_frequecies_by_range((0.3, 12.0), 9)
+                want = np.logspace(np.log10(0.3), np.log10(12.0), 9)
+            else:
+                want = np.array([0.5, 1.0, 4.0])
+                o.smooth_fa_freqs = want
+            got = np.asarray(o.smooth_fa_freqs)
+        if got.shape != want.shape or np.max(np.abs(got - want)) > 1e-9 * np.max(np.abs(want)):
+            return dict(status='confirmed', observed={'smooth_fa_freqs_first_last_n': [float(got[0]), float(got[-1]), int(len(got))],
+                                                      'demanded_first_last_n': [float(want[0]), float(want[-1]), int(len(want))]},
+                        detail='history [%s; %s]: the smoothing frequencies are not what the settings say' % (name, op),
+                        input={'history': [name, op], 'class': cls.__name__})
+    return dict(status='not-reproduced', detail='smoothing settings behave as stated after %d earlier settings histories' % len(befores))
+
+
 def replay(info, ce):
+    if info.get('kind') == 'c04-smoothing-settings':
+        return replay_smoothing_settings(info, ce)
     import warnings
     import eqsig
     warnings.simplefilter('ignore')
